@@ -4,6 +4,7 @@ CONSTANTS
   Wide = FALSE
   ScratchVals = {0}
   ArgCounts = {0, 1, 2, 4, 7, 9}
+  SingleCounts = {1, 7, 9}
   RotStep = 5
   Emit = TRUE
   Strict = FALSE
